@@ -12,8 +12,12 @@
 #             its default `uom` feature (only possible in a build that does not contain nexrad-data,
 #             whose dependency on nexrad-decode switches the defaults back on)
 #   quick:    C05, C06            -> valgrind memcheck on the optimized harness (reduced workload)
-#   thorough: C01, C05, C06       -> ASan with libbz2 itself instrumented (+ valgrind for C05/C06)
+#   thorough: every property but C20 -> ASan (libbz2 itself instrumented): since a change may relax
+#             forbid(unsafe_code), memory errors are no longer confined to the C library
+#             C01, C03, C05, C06, C13, C14, C16, C19 -> valgrind memcheck as well (uninitialised reads)
 #             C02, C04, C07, C10  -> Miri on the pure-Rust decode/model paths
+#   (the main run of every check has the guard allocator of harness/src/mon.rs; the valgrind and
+#    ASan lanes switch it off, VERIF_GUARD_ALLOC=0, so that the tools see the memory as it is)
 set -u
 ROOT="$(cd "$(dirname "$0")/.." && pwd)"
 PROP="$1"; TIER="$2"
@@ -24,9 +28,10 @@ export CARGO_NET_OFFLINE=true
 lanes=()
 case "$TIER:$PROP" in
   quick:C05|quick:C06) lanes=(valgrind) ;;
-  thorough:C05|thorough:C06) lanes=(valgrind asan) ;;
-  thorough:C01) lanes=(asan) ;;
-  thorough:C02|thorough:C04|thorough:C07|thorough:C10) lanes=(miri) ;;
+  thorough:C05|thorough:C06|thorough:C01|thorough:C03|thorough:C13|thorough:C14|thorough:C16|thorough:C19) lanes=(valgrind asan) ;;
+  thorough:C02|thorough:C04|thorough:C07|thorough:C10) lanes=(miri asan) ;;
+  thorough:C20) ;;
+  thorough:*) lanes=(asan) ;;
 esac
 case "$PROP" in
   C20) ;;
@@ -59,6 +64,7 @@ for lane in "${lanes[@]}"; do
     valgrind)
       LOG="$OUT/valgrind.log"; mkdir -p "$OUT/vg-evidence"
       DIV=12; [ "$PROP" = "C05" ] && DIV=2
+      export VERIF_SHADOWS=1
       CMD="valgrind -q --error-exitcode=9 --errors-for-leak-kinds=definite --leak-check=full $ROOT/harness/target/release/nxverif $PROP quick"
       VERIF_GUARD_ALLOC=0 VERIF_THREADS=4 VERIF_CASES_DIV=$DIV VERIF_EVIDENCE_DIR="$OUT/vg-evidence" VERIF_REPLAY_DIR="$OUT" VERIF_WATCHDOG_S=1500 \
         valgrind -q --error-exitcode=9 --errors-for-leak-kinds=definite --leak-check=full --log-file="$OUT/valgrind.memcheck" \
